@@ -57,6 +57,14 @@ class C14(Prop):
                         rows, (ox, oy) = render(cells)
                         x = rng.choice([0, 2]); y = rng.choice([0, 1])
                         out.append(self.make('bullet', rows, x, y, {'kind': 'bullet', 'bullet': b, 'cell': [bc[0] + ox + x, bc[1] + oy + y], 'scale': rng.choice(['8', '8', '10', '5'])}))
+        # an arrow that has turned a corner and points at something that does not belong to it (a wall, a label, another line):
+        # still one filled polygon, and the arrowhead is not shown as text
+        for n in ((1, 3, 6) if tier == 'quick' else range(1, 12)):
+            for corner in "'+`":
+                fams = [['|' + ' ' * (n + 1) + '|', corner + '-' * n + '>|'], ['|' + ' ' * n, corner + '-' * n + '>' + 'a'], ['|', corner + '-' * n + '>', ' ' * (n + 1) + '|'],
+                        [' ' * (n + 2) + '|', '|<' + '-' * n + ("'" if corner == '`' else corner)], ['|' + ' ' * n + ' |', corner + '-' * n + '>|', '   |']]
+                for rows in fams:
+                    out.append(self.make('arrow-after-corner', rows, rng.choice([0, 2]), rng.choice([0, 1]), {'kind': 'turned', 'glyph': '>' if '>' in rows[1] else '<'}))
         sizes = [(w, h) for w in range(1, 31) for h in range(1, 16)]
         if tier == 'quick': sizes = [(w, h) for w in (1, 2, 5) for h in (1, 2, 4)] + [(rng.randint(1, 30), rng.randint(1, 15)) for _ in range(25)]
         for w, h in sizes:
@@ -94,6 +102,10 @@ class C14(Prop):
                 if ahead and any(s > 0 for s in sides) and any(s < 0 for s in sides): ok = True
             if not ok: out.append('arrow %r direction %s: no line whose axis carries the tip %s beyond its end with the base %s on both sides; lines %s' % (it.meta['glyph'], d, tip, base, [(a, b) for a, b, _ in lines()]))
             if any(e.tag == 'text' for e in els): out.append('the arrowhead character is also shown as text')
+        elif kind == 'turned':
+            polys = [e for e in root.walk() if e.tag == 'polygon' and 'filled' in (e.get('class') or '').split()]
+            if len(polys) != 1: out.append('%d filled polygons for one arrowhead %r at the end of a line that has turned a corner' % (len(polys), it.meta['glyph']))
+            if any(e.tag == 'text' and it.meta['glyph'] in e.text() for e in root.walk()): out.append('the arrowhead %r is shown as text' % it.meta['glyph'])
         elif kind == 'bullet':
             b = it.meta['bullet']; c, r = it.meta['cell']
             sc = F(it.meta.get('scale', '8'))
